@@ -42,6 +42,8 @@ def rx(e, S="self"):
         if len(e) > 4 and e[4] == "bit" and e[2] == e[3]:
             return "%s.%s[%d]" % (S, e[1], e[2])
         return "%s.%s[%d:%d]" % (S, e[1], e[2], e[3])
+    if k == "pse":
+        return "%s[%d:%d]" % (rx(e[1], S), e[2], e[3])
     if k == "el":
         s = "%s.%s[%s]" % (S, e[1], rx(e[2], S))
         if len(e) > 3 and e[3]:
